@@ -17,6 +17,11 @@ func init() { checks["C10"] = c10 }
 
 // auditProblems compares every expected audit file of a run with the reference lineage.
 func auditProblems(wd string, exp *ref.Result, ti *mon.TraceIndex) (ps []mon.Problem, records, maxDepth int) {
+	loaded := map[string]*mon.AuditJSON{}
+	defer func() {
+		// "contains the full audit record of every input file": the embedded record is that file's own record
+		ps = append(ps, ancestorIdentity(wd, loaded)...)
+	}()
 	for path, want := range exp.AuditFor {
 		if filepath.IsAbs(path) {
 			continue
@@ -26,7 +31,10 @@ func auditProblems(wd string, exp *ref.Result, ti *mon.TraceIndex) (ps []mon.Pro
 			ps = append(ps, mon.Problem{Sig: "audit-file-unreadable", Msg: err.Error()})
 			continue
 		}
-		ps = append(ps, mon.CompareAudit(got, want, path, false)...)
+		// tags: every expected tag must be present (superset semantics, as the property states it); foreign
+		// tags that leak between records are caught by the identity of embedded records with the files on disk
+		ps = append(ps, mon.CompareAudit(got, want, path, true)...)
+		loaded[path] = got
 		records += got.Count()
 		if d := got.Depth(); d > maxDepth {
 			maxDepth = d
